@@ -346,3 +346,72 @@ def direct_calls(draw, version):
 def direct_batch(draw):
     version = draw(st.sampled_from(['31', '31', '31', '30', '20']))
     return {'v': version, 'asts': direct_calls(draw, version)}
+
+
+# --------------------------------------------------------------------------
+# parts for the metamorphic equivalences (C08 'equiv'): the judge assembles both sides
+# --------------------------------------------------------------------------
+RELATIONS_20 = ['every-some', 'subseq3', 'subseq2', 'rev-rev', 'insert-count', 'remove-filter', 'sum-avg',
+                'minmax-bound', 'filter-for', 'exists-empty', 'some-filter', 'comma-assoc', 'index-of-def',
+                'last-reverse', 'first-subseq', 'distinct-bound', 'count-for']
+RELATIONS_30 = RELATIONS_20 + ['tail-subseq', 'head-first', 'for-map', 'count-map']
+
+
+def uses_var_under_focus(n, name, infocus=False):
+    """True if $name occurs below an inner focus (then it cannot be replaced by '.')"""
+    if not isinstance(n, list) or not n:
+        return False
+    t = n[0]
+    if t == 'var':
+        return infocus and n[1] == name
+    if t in ('str', 'dec', 'dbl', 'flt', 'unt', 'nodes', 'int', 'bool'):
+        return False
+    if t in ('map', 'filter'):
+        return uses_var_under_focus(n[1], name, infocus) or uses_var_under_focus(n[2], name, True)
+    kids = n[1:] if isinstance(t, str) else n
+    return any(uses_var_under_focus(c, name, infocus) for c in kids)
+
+
+def subst_var_by_ctx(n, name):
+    if not isinstance(n, list) or not n:
+        return n
+    if n[0] == 'var':
+        return ['ctx'] if n[1] == name else n
+    if n[0] in ('str', 'dec', 'dbl', 'flt', 'unt', 'nodes', 'int', 'bool'):
+        return n
+    return [subst_var_by_ctx(c, name) for c in n]
+
+
+@st.composite
+def equiv_case(draw):
+    v = draw(st.sampled_from(['31', '31', '30', '20']))
+    rel = draw(st.sampled_from(RELATIONS_20 if v == '20' else RELATIONS_30))
+    g = Gen(draw, v, max_depth=2)
+    fl = draw(st.sampled_from('iiinnssmu'))
+    if rel in ('sum-avg',):
+        fl = draw(st.sampled_from('iii'))
+    if rel in ('minmax-bound', 'index-of-def'):
+        fl = draw(st.sampled_from('iis'))
+    if rel == 'distinct-bound':
+        fl = draw(st.sampled_from('iisn'))
+    S = g.seq(fl, 0 if draw(st.integers(0, 9)) < 6 else 1, TOP)
+    if rel == 'sum-avg' and draw(st.integers(0, 9)) < 4:
+        S = ['seq', *[draw(st.sampled_from([['int', _sf(draw, INTS)], ['dec', _sf(draw, DECS)]]))
+                      for _ in range(draw(st.integers(1, 6)))]]
+    case = {'v': v, 'rel': rel, 'S': S, 'fl': fl}
+    scx = ((('x', 'item', fl),), None)
+    if rel in ('every-some', 'filter-for', 'some-filter'):
+        case['P'] = g.boolean(1, scx)
+    if rel in ('for-map',):
+        case['F'] = g.seq(draw(st.sampled_from('iinsm')), 1, scx)
+    if rel in ('subseq3', 'subseq2'):
+        case['a'] = pos_arg(draw)
+        case['b'] = pos_arg(draw)
+    if rel in ('insert-count', 'remove-filter'):
+        case['i'] = ['int', _sf(draw, POS_INT)] if draw(st.integers(0, 9)) < 7 else g.int1(1, TOP)
+    if rel in ('insert-count', 'comma-assoc'):
+        case['T'] = g.seq(draw(st.sampled_from('insmu')), 1, TOP)
+        case['U'] = lit_seq(draw, draw(st.sampled_from('insmu')))
+    if rel == 'index-of-def':
+        case['x'] = lit_item(draw, fl)
+    return case
